@@ -174,6 +174,16 @@ fn word_shapes() -> Vec<String> {
 }
 
 fn para_html(rng: &mut Rng, words: &[String], layout: usize) -> String {
+    let html = para_html0(rng, words, layout);
+    // a fragment marker as the first thing in the paragraph (it opens the wrapping block)
+    match rng.below(8) {
+        0 => html.replacen("<p>", "<p id=\"pid\">", 1),
+        1 => html.replacen("<p>", "<p><a name=\"top\"></a>", 1),
+        2 => html.replacen("<p>", "<p><span id=\"sid\"></span>", 1),
+        _ => html,
+    }
+}
+fn para_html0(rng: &mut Rng, words: &[String], layout: usize) -> String {
     match layout {
         0 => format!("<p>{}</p>", words.join(" ")),
         1 => {
